@@ -3,6 +3,6 @@
 set -e
 n=$1
 git -C /repo worktree add --detach /tmp/wt_$n HEAD >/dev/null 2>&1
-cp -a /var/tmp/sgtpl /tmp/wt_${n}_target
+if [ -d /var/tmp/sgtpl ]; then cp -a /var/tmp/sgtpl /tmp/wt_${n}_target; else mkdir -p /tmp/wt_${n}_target; fi   # sgtpl = optional pre-built lib-test target template (saves ~10 min per worktree)
 mkdir -p /tmp/wt_$n/out
 echo /tmp/wt_$n
